@@ -398,3 +398,11 @@ func ZZC18Twin() {
 	a.Send(&Message{TTL: 2, From: &Peer{Name: "p2"}})
 	rt.Assert(len(zzCollectSends()) == 0, "twin")
 }
+
+// ZZNewAgentWithBus: an agent reduced to its message buses (for harnesses in other packages).
+func ZZNewAgentWithBus() *Agent {
+	a := &Agent{Self: &Peer{Name: "self"}, log: log.L()}
+	a.Out.log = log.L()
+	a.In.log = log.L()
+	return a
+}
